@@ -169,7 +169,21 @@ pub fn run(seed: u64, count: usize, outdir: &str) -> std::io::Result<i32> {
             g = GenShape { ctx, root, kind: "rotated-box-witness" };
             depth = if ci == 3 { 3 } else { 6 };
         }
-        let corpus = corpus || witness;
+        // case 5: two small balls on opposite corners of ONE leaf cell (two sheets, two dual vertices in that cell) in a model that lives
+        // at (10, 10, 10) at half scale: every vertex of a multi-vertex leaf must go through world_to_model
+        let two_sheets = ci == 5;
+        if two_sheets {
+            use fidget_shapes::{types::Vec3, Sphere, Union};
+            let m = |w: f32| 10.0 + 0.5 * w;
+            // (the round-3 witness: centres slightly off two corners that share a face diagonal of the cell)
+            let input: Vec<fidget_core::context::Tree> = [(0.03f32, -0.02f32, 0.04f32), (0.52, 0.03, 0.47)].iter().map(|p| Sphere { center: Vec3::new(m(p.0), m(p.1), m(p.2)), radius: 0.1 }.into()).collect();
+            let t: fidget_core::context::Tree = Union { input }.into();
+            let mut ctx = fidget_core::context::Context::new();
+            let root = ctx.import(&t);
+            g = GenShape { ctx, root, kind: "two-sheets-in-a-cell" };
+            depth = 2;
+        }
+        let corpus = corpus || witness || two_sheets;
         let s = 1.0 + r.unit() as f32 * 0.5;
         // one case in five: an oblique polyhedral shape through a pure rotation
         let oblique = !corpus && r.chance(0.2);
@@ -177,11 +191,26 @@ pub fn run(seed: u64, count: usize, outdir: &str) -> std::io::Result<i32> {
         // one case in four: the same solid described by a field scaled by a power of ten (the mesh must not depend on it)
         let mut unscaled: Option<(fidget_core::context::Node, f32)> = None;
         if !corpus && r.chance(0.25) { let k = *r.pick(&[1e-4f32, 1e-2, 10.0, 1e3, 1e5, 1e6]); unscaled = Some((g.root, k)); let root = g.ctx.mul(g.root, k).unwrap(); g.root = root; }
-        let mat = if corpus { Matrix4::identity() } else if oblique { Matrix4::from_euler_angles(r1c(&mut r), r1c(&mut r), r1c(&mut r)) } else { match r.below(4) { 0 => Matrix4::identity(), 1 => Matrix4::new_scaling(s),
+        let mat = if two_sheets { Matrix4::new_translation(&Vector3::new(10.0, 10.0, 10.0)) * Matrix4::new_scaling(0.5) } else if corpus { Matrix4::identity() } else if oblique { Matrix4::from_euler_angles(r1c(&mut r), r1c(&mut r), r1c(&mut r)) } else { match r.below(4) { 0 => Matrix4::identity(), 1 => Matrix4::new_scaling(s),
             // a perspective camera (as the CLI builds): the bottom row has a z term
             // (the model-space window shrinks to s / (1 + |p|) where w is largest: keep it wider than the shapes, which reach 0.9)
             3 => { let p = *r.pick(&[0.3f32, 0.5, -0.25]); let mut m = Matrix4::new_scaling(1.02 * (1.0 + p.abs())); m[(3, 2)] = p; m }
             _ => Matrix4::new_scaling(1.8) * Matrix4::from_euler_angles(r.unit() as f32 * 3.0, r.unit() as f32 * 3.0, r.unit() as f32 * 3.0) } };
+        // one case in four: the model lives away from the origin (world_to_model carries a translation, the shape is moved along):
+        // a vertex that misses the transform, or gets it twice, then sits far from the surface
+        let mut mat = mat;
+        if !corpus && r.chance(0.25) {
+            let c = [r1c(&mut r) * 8.0, r1c(&mut r) * 8.0, r1c(&mut r) * 8.0];
+            let moved = |ctx: &mut fidget_core::context::Context, root: fidget_core::context::Node| -> fidget_core::context::Node {
+                use fidget_core::context::Tree;
+                let t = ctx.export(root).unwrap(); let (x, y, z) = Tree::axes();
+                let t = t.remap_xyz(x - c[0], y - c[1], z - c[2]); ctx.import(&t) };
+            g.root = moved(&mut g.ctx, g.root);
+            if let Some((r0, k)) = unscaled { let r1 = moved(&mut g.ctx, r0); unscaled = Some((r1, k)); }
+            // model = T(c) * (old world_to_model) * world: the last column of an affine matrix gains c (perspective ones: row 3 scales it)
+            let t = Matrix4::new_translation(&Vector3::new(c[0], c[1], c[2]));
+            mat = t * mat;
+        }
         let threads = *r.pick(&[0usize, 0, 1, 2, 4, 9]);
         let line0 = format!("kind={} nodes={} depth={depth} threads={threads} mat={:?}", g.kind, g.ctx.len(), mat.as_slice());
         distinct.insert(line0.clone());
@@ -191,9 +220,10 @@ pub fn run(seed: u64, count: usize, outdir: &str) -> std::io::Result<i32> {
         // sampled volume of the negative region (model coordinates: world region (-1,1)^3 mapped by world_to_model)
         let n = if depth >= 5 { 128usize } else { 40 };
         let m64 = mat.cast::<f64>();
-        let det = m64.fixed_view::<3, 3>(0, 0).determinant().abs();
         let det4 = m64.determinant().abs();
         let projective = m64[(3, 0)] != 0.0 || m64[(3, 1)] != 0.0 || m64[(3, 2)] != 0.0 || m64[(3, 3)] != 1.0;
+        // the volume scale at the centre of the region (for a projective matrix the upper-left block is not it once a translation has been composed in)
+        let det = if projective { det4 / m64[(3, 3)].powi(4).abs() } else { m64.fixed_view::<3, 3>(0, 0).determinant().abs() };
         let mut inside = 0usize;
         let mut wsum = 0.0f64;
         // the sign at every grid midpoint and the local area scale there, for an estimate of the TRUE surface area
@@ -291,6 +321,9 @@ pub fn run(seed: u64, count: usize, outdir: &str) -> std::io::Result<i32> {
             // keep a vertex only inside the cell).  1.001: the positions come back through the inverse of the f32 transform
             if escape.0 > 1.001 && rep.problems.iter().all(|p| !p.starts_with("kind=non-finite")) {
                 bad.push(format!("kind=vertex-outside-expanded-cell backend={name} a vertex lies {:.2} cell sizes outside its own leaf (leaf depth {})", escape.0, escape.1)); }
+            // ... and EVERY vertex (edge crossings included, which lie on cell edges) within one cell size of the meshing region
+            if excursion > 1.001 && rep.problems.iter().all(|p| !p.starts_with("kind=non-finite")) {
+                bad.push(format!("kind=vertex-outside-region backend={name} a vertex lies {excursion:.1} cell sizes outside the meshing region")); }
             // the recorded finding qef-vertex-escapes-cell: QuadraticErrorSolver::solve does not keep its solution inside the cell; for
             // features of about a cell the vertex lands cells away and the local volume / orientation is wrong
             if escape.0 > 1.0 { for b in bad[vol_start..].iter_mut() { for k in ["kind=negative-volume", "kind=volume-mismatch", "kind=inward-winding"] {
